@@ -419,6 +419,39 @@ def r5_key_material(ctx):
             )
 
 
+def r8_session_key_fixed(ctx):
+    """The key material a session works with (self.props) is established by init / unlock only.  A command that
+    builds another key (add_key) must not install that key's material as the session's own: the rest of the session
+    would read, write and garbage-collect under another key family than the one the user unlocked."""
+    corpus = ctx.corpus
+    cls = repo_cls(corpus)
+    n = 0
+    for m in list(cls.methods.values()) + [x for mm in cls.methods.values() for x in mm.all_nested()]:
+        for a in walk_local(m.node):
+            tg = []
+            if isinstance(a, ast.Assign):
+                tg = a.targets
+            elif isinstance(a, (ast.AugAssign, ast.AnnAssign)):
+                tg = [a.target]
+            for t in tg:
+                for x in ast.walk(t):
+                    if isinstance(x, ast.Attribute) and x.attr == 'props' and isinstance(x.value, ast.Name) and x.value.id == 'self' and isinstance(x.ctx, ast.Store):
+                        n += 1
+                        top = m
+                        while top.parent is not None:
+                            top = top.parent
+                        ctx.check(
+                            top.name in ('init', 'unlock', '__init__'),
+                            'C06.R8',
+                            f'{func_label(m)}|session-key-set-only-by-init-and-unlock',
+                            loc(m, a),
+                            f'{top.name}: establishes the session key material (self.props)',
+                            f'{top.name} replaces the session key material (`{src(a, 60)}`): after it the session uses another key than the one that was unlocked - e.g. after add-key every later '
+                            "command of the same process reads / deletes under the NEW key's family",
+                        )
+    ctx.floor('C06.R8', 'stores to self.props', n, 2)
+
+
 def r6_no_key_independent_cache(ctx):
     corpus = ctx.corpus
     cls = repo_cls(corpus)
@@ -462,8 +495,14 @@ def run(ctx):
 
     # deleting one's own snapshot never removes chunks that snapshots of other users (same key family) still reference
     r1_keep_set(Relabel(ctx, 'C06.R7'), DeleteRoles(ctx.corpus))
+    r8_session_key_fixed(ctx)
     r7_shared(ctx)
     r1_unlock(ctx)
+    # "a wrong password never unlocks": a key whose private section is not sealed unlocks with ANY password
+    # (_instantiate_key takes a non-bytes private section as it is), so every emitted key must carry the sealed section
+    from .c17 import r7_emitted_key_encrypted
+
+    r7_emitted_key_encrypted(Relabel(ctx, 'C06.R1'))
     r2_delete_refusal(ctx)
     r3_readers(ctx)
     r4_tag_gate(ctx)
